@@ -276,6 +276,26 @@ CLAIMED["C11"] = dict(
          "one-loop code). Three genuine defects found by this rule were repaired (known_findings.json).",
     ref="3 C11")
 
+CLAIMED["C01"] = dict(
+    category="other",
+    technique="symbolic folding of each loop function into its evaluation regimes; exact rational-function "
+              "normal forms over {x, log x, Li2(1-x), f_PS(x), pi, log 2}; exact Laurent/Taylor series over the "
+              "rationals; a reader for the repository's Mathematica definition file",
+    text="For F1C..F4C, F1N..F4N, G3, G4, f_S, f_sferm, f_CSl, F1, F1~, F2, F3 (17 functions): the generic "
+         "closed form is identically the definition in math/ffunctions.m (for F1..F3: the exact value of the "
+         "quoted integral representation, obtained by polynomial division of the integrand); every coefficient "
+         "of every Taylor branch equals the exact Taylor coefficient of that closed form at 1 (all poles cancel "
+         "exactly); the values returned at 0, 1/4 and 1 equal the limits of the closed form (or the "
+         "documented convention 0 where it diverges) and the F[0], F[1/4], F[1] lines of ffunctions.m, long "
+         "decimal literals to 2 ulp; at the edge of each Taylor window a first-order error model bounds "
+         "series truncation and closed-form cancellation below 1e-7; every regime a negative argument can "
+         "reach yields NaN. These hold for all arguments, not for sampled ones.",
+    note=TRUST + "NOT decided: the Pade approximants of dilog/clausen_2 (1e-13 claim) and the complex dilogarithm; "
+         "the three real regimes of f_PS against its complex definition; the large-argument expansions of "
+         "f_S and F3; rounding for x -> 0+ and x -> 1e12. R4 is an error model, not a proof of 1e-7. One "
+         "genuine defect (finite values for tiny negative arguments) was repaired.",
+    ref="3 C01")
+
 NOT_APPLICABLE = {
     "C03": "numerical agreement of one-loop results with an independent higher-precision evaluation over all "
            "parameter points: depends on eigen-decomposition values; no code-shape clause of its own "
